@@ -758,6 +758,9 @@ func roundTripTasks(r *eng.Run, c hsClient, s hsServer, rseed int64) (cl, sv *hs
 		}
 	}
 	r.Res.Probes["task_switches"] += sch.Switches()
+	if sch.Mutual() > 0 {
+		r.Failf("handshake_peers_wait_for_each_other", "as two tasks on a connection that stays open, dialer and upgrader both ended up waiting for the other (neither had returned)\n  %s\n  %s", c, s)
+	}
 	return cl, sv
 }
 
